@@ -3,13 +3,14 @@ package main
 import (
 	"bufio"
 	"bytes"
-	"io"
 	"fmt"
 	"go/format"
+	"io"
 	"os"
 	"path/filepath"
 	"strings"
 	"sync"
+	"syscall"
 
 	"github.com/dave/jennifer/jen"
 )
@@ -218,12 +219,12 @@ func genSharedCase(cx *CheckCtx, i int) *Case {
 // ---------------------------------------------------------------- C10: failure atomicity
 
 type fxLine struct {
-	kind            string
-	noFormat, mis   bool
-	raw             string
-	fmtOK           bool
-	fmtOut          string
-	writerOK, fsOK  bool
+	kind           string
+	noFormat, mis  bool
+	raw            string
+	fmtOK          bool
+	fmtOut         string
+	writerOK, fsOK bool
 }
 
 func (l fxLine) String() string {
@@ -238,10 +239,10 @@ func oracleC10(cx *CheckCtx, runs []*CaseRun) []Finding {
 	}
 	defer os.RemoveAll(tmp)
 	type expect struct {
-		cr    *CaseRun
-		what  string
-		got   string // observed: "<class> <effects>"
-		line  fxLine
+		cr   *CaseRun
+		what string
+		got  string // observed: "<class> <effects>"
+		line fxLine
 	}
 	var exps []expect
 	for ci, cr := range runs {
@@ -329,8 +330,11 @@ func oracleC10(cx *CheckCtx, runs []*CaseRun) []Finding {
 		}
 		// (existing-long / readonly-long: the old content is much LONGER than the new output, the
 		// second one with the write bits cleared — what is left of it afterwards must be nothing)
-		targets := []string{"fresh", "existing", "missingdir", "isdir", "existing-long", "readonly-long"}
-		if _, err := os.Stat("/dev/full"); err == nil {
+		// (symlink-rel / symlink-abs: the target is a symbolic link, with a relative resp. absolute
+		// link text, to an existing file in another directory; the process's working directory is
+		// neither: the new content must be what one reads through the link afterwards)
+		targets := []string{"fresh", "existing", "missingdir", "isdir", "existing-long", "readonly-long", "symlink-rel", "symlink-abs"}
+		if fi, err := os.Lstat("/dev/full"); err == nil && fi.Mode()&os.ModeCharDevice != 0 {
 			targets = append(targets, "devfull") // opens fine, every write fails with ENOSPC
 		}
 		for ti, target := range targets {
@@ -349,6 +353,16 @@ func oracleC10(cx *CheckCtx, runs []*CaseRun) []Finding {
 				if target == "readonly-long" {
 					os.Chmod(path, 0o444)
 				}
+			case "symlink-rel", "symlink-abs":
+				before = "// previously generated, good content\n"
+				os.MkdirAll(filepath.Join(dir, "real"), 0o755)
+				os.WriteFile(filepath.Join(dir, "real", "out.go"), []byte(before), 0o644)
+				link := filepath.Join("real", "out.go")
+				if target == "symlink-abs" {
+					link = filepath.Join(dir, "real", "out.go")
+				}
+				path = filepath.Join(dir, "link.go")
+				os.Symlink(link, path)
 			case "missingdir":
 				path = filepath.Join(dir, "nope", "out.go")
 			case "isdir":
@@ -383,6 +397,17 @@ func oracleC10(cx *CheckCtx, runs []*CaseRun) []Finding {
 					class = "err:fs"
 				}
 			}
+			if target == "devfull" {
+				// an implementation that REPLACES its target (temp file + rename) instead of writing
+				// to it turns the device node into a regular file (the checks run as root): the
+				// result is reported below (ok instead of an error); put the node back
+				if fi, err := os.Lstat("/dev/full"); err != nil || fi.Mode()&os.ModeCharDevice == 0 {
+					os.Remove("/dev/full")
+					syscall.Mknod("/dev/full", syscall.S_IFCHR|0o666, 1<<8|7)
+					os.Chmod("/dev/full", 0o666)
+					cx.note("Save replaced /dev/full by a regular file; the device node was restored")
+				}
+			}
 			var after []byte
 			rerr := os.ErrInvalid
 			if target != "devfull" { // reading /dev/full never ends
@@ -390,13 +415,13 @@ func oracleC10(cx *CheckCtx, runs []*CaseRun) []Finding {
 			}
 			eff := ""
 			switch {
-			case strings.HasPrefix(target, "existing") && string(after) == before, target == "readonly-long" && string(after) == before:
+			case (strings.HasPrefix(target, "existing") || strings.HasPrefix(target, "symlink")) && string(after) == before, target == "readonly-long" && string(after) == before:
 				eff = ""
 			case rerr == nil && target != "isdir":
 				eff = "fswrite:" + esc(string(after))
 			}
 			// (a read-only target can be overwritten by root only)
-			fsOK := target == "fresh" || target == "existing" || target == "existing-long" || (target == "readonly-long" && os.Geteuid() == 0)
+			fsOK := target == "fresh" || target == "existing" || target == "existing-long" || strings.HasPrefix(target, "symlink") || (target == "readonly-long" && os.Geteuid() == 0)
 			exp := expect{cr: cr, what: "Save to " + target, got: class + " " + eff,
 				line: fxLine{kind: "save", noFormat: noFormat, mis: mis, raw: raw, fmtOK: fmtOK, fmtOut: fmtOut, writerOK: true, fsOK: fsOK}}
 			exps = append(exps, exp)
